@@ -165,6 +165,28 @@ def fuzz_sources(rnd, n):
     return out
 
 
+def emit_arity_sources():
+    """every emitter method with every argument count (0..4) on every kind of receiver, in top-level functions and in
+    methods: a call that is not a well-formed emit is at most not an event - indexing its arguments must not panic"""
+    out = []
+    receivers = ["app", "window", "webview", "self.app", "ctx.window", "state.bus()", "app.clone()", "tauri::AppHandle::clone(&app)", "handle"]
+    argpool = ['"first"', '"second-name"', "payload", "42", "&extra"]
+    for mi, method in enumerate(("emit", "emit_to", "emit_filter", "emit_str", "emit_all")):
+        body = ["pub struct Ctx { pub app: tauri::AppHandle, pub window: tauri::Window }\n"]
+        k = 0
+        for ri, recv in enumerate(receivers):
+            for n in range(5):
+                call = "%s.%s(%s)" % (recv, method, ", ".join(argpool[:n]))
+                k += 1
+                if recv.startswith("self."):
+                    body.append("impl Ctx {\n    pub fn m%d_%d(&self, payload: u8, extra: u8) {\n        %s.ok();\n    }\n}\n" % (mi, k, call))
+                else:
+                    body.append("pub fn f%d_%d(app: tauri::AppHandle, window: tauri::Window, webview: tauri::Webview, ctx: &Ctx, state: &S, handle: H, payload: u8, extra: u8) {\n    %s.ok();\n    let _ = %s;\n}\n" % (mi, k, call, call))
+        body.append("#[tauri::command]\npub fn anchor_%d() {}\n" % mi)
+        out.append(("emit-arity-%s" % method, rustgen.PRELUDE + "use tauri::Emitter;\n" + "\n".join(body), "calls of `%s` with 0..4 arguments on 9 receivers" % method))
+    return out
+
+
 def keyword_adjacent_sources():
     """token-balanced but malformed attribute lists (the structural parser gives up and any text fallback runs) in
     which a word the fallbacks search for stands directly after / before a 2-, 3- or 4-byte character - inside a
@@ -215,6 +237,7 @@ def run(tier, seed):
     sources += arity_sources()
     sources += nonascii_type_sources()
     sources += keyword_adjacent_sources()
+    sources += emit_arity_sources()
     sources += fuzz_sources(rnd, 360 if tier == "quick" else 4500)
 
     def work(src):
@@ -224,7 +247,7 @@ def run(tier, seed):
             root = os.path.join(d, "%s-%s" % (name, mode))
             rustgen.write_project(root, {"src/lib.rs": text})
             r = runner.generate(root, mode=mode)
-            if name.startswith("kwadj-") and "Failed to parse" in r.err:
+            if name.startswith(("kwadj-", "emit-arity-")) and "Failed to parse" in r.err:
                 raise C.ToolError("source %s is meant to be parsable Rust but the analyser skipped it: %s" % (name, r.err[-300:]))
             res.append((name, mode, r.status, r.err[-300:], what))
             shutil.rmtree(root, ignore_errors=True)
